@@ -159,7 +159,13 @@ def add_return_edges_to_callee(
     for block in _get_function_blocks(module, func_uuid):
         assert block.ir
 
-        if not cache.return_cache.any_return_edges(block):
+        # The CFG being added to may not be the IR's (a patch's edges are
+        # merged later), so an earlier call from the same patch may already
+        # have replaced the block's proxy return edge with one in that CFG.
+        if not cache.return_cache.any_return_edges(block) and not any(
+            edge.label and edge.label.type == gtirb.Edge.Type.Return
+            for edge in cfg.out_edges(block)
+        ):
             continue
 
         for return_edge in cache.return_cache.block_proxy_return_edges(block):
